@@ -1,5 +1,8 @@
 """C03  Every valid RFC 9535 query is accepted by compile().
 
+MC     T1: ABNF.tla (the RFC grammar as data) and Syntax.tla (the parser) accept the
+       same strings, on the seed lists and a seeded sample of this run's candidates.
+
 TRACE  candidate-valid query texts (seed list, the repository's test queries,
        seeded QueryGen output at three spelling levels: blank space in every S
        position, both quote styles, every escape form incl. \\uXXXX in both
@@ -33,6 +36,7 @@ def run(chk: core.Check, tier: str, seed: int) -> None:
     rng = random.Random(seed)
     n = 12000 if tier == "quick" else 250000
     cands = list(dict.fromkeys(corpus.SEEDS + EXTRA + corpus.repo_test_queries() + corpus.literal_queries() + corpus.valid_candidates(rng, n)))
+    common.t1_check(chk, [t for t in (corpus.SEEDS + EXTRA + rng.sample(cands, 500 if tier == "quick" else 15000)) if len(t) <= 60], "c03_t1")
     recs = [impl.rec_compile(jp, q) for q in cands]
     for r in recs:
         chk.nontrivial.add(tuple(r["q"]))
